@@ -476,7 +476,8 @@ fn emit_fn(cx: &mut Ctx, specs: &mut Specs, em: &mut Emitter, ex: &Extract, file
         // (the list is per file: `<file> <name>`)
         let here: BTreeSet<String> = cx.baseline_fns.iter().filter_map(|l| l.strip_prefix(&format!("{} ", ex.file)).map(|n| n.to_string())).collect();
         let helpers = rewrite::new_helpers(file, head.as_deref(), &here);
-        rewrite::inline_new_helpers(&mut f.block, &helpers, cx);
+        let owns_self = matches!(f.sig.receiver(), Some(r) if r.reference.is_none());
+        rewrite::inline_new_helpers(&mut f.block, &helpers, owns_self, cx);
     }
     let mut tr_generics: Option<syn::Generics> = None;
     if let Some(tr) = &fd.tr {
